@@ -719,12 +719,14 @@ class Hugr(Mapping[Node, NodeData], Generic[OpVarCov]):
         # not counted in the number of ports.
         if p.offset < 0:
             assert p.offset == -1, "Only order edges are allowed with offset < 0"
-            offset = self.num_ports(p.node, p.direction)
             # The order port comes after all the value (and static) ports of
-            # the operation, whether or not they are connected.
+            # the operation, whether or not they are connected and however many
+            # ports the node was created with.
             order_offset = self._order_port_offset(p.node, p.direction)
             if order_offset is not None:
-                offset = max(offset, order_offset)
+                offset = order_offset
+            else:
+                offset = self.num_ports(p.node, p.direction)
         else:
             offset = p.offset
 
